@@ -790,6 +790,23 @@ func runC16Width(c *Ctx) {
 			c.bad(construct, call.Pos(), "the width is not measured in terminal cells only (uses "+strings.Join(bad, ", ")+"): after a wide or zero-width character the caret is not under the reported column")
 		}
 	})
+	// padding written character by character: one constant space per character of the line is a width in characters
+	for _, name := range []string{"(*strings.Builder).WriteByte", "(*strings.Builder).WriteRune", "(*strings.Builder).WriteString"} {
+		for _, call := range findCalls(fn, name) {
+			arg := call.Common().Args[1]
+			isSpace := false
+			if k, ok := constInt(arg); ok && k == ' ' {
+				isSpace = true
+			}
+			if s, ok := constString(arg); ok && s == " " {
+				isSpace = true
+			}
+			if isSpace && blockInCycle(call.Block()) {
+				n++
+				c.bad("(*Error).getIndicator|width of the \" \" run", call.Pos(), "one space is written per character of the line: after a wide or zero-width character the caret is not under the reported column")
+			}
+		}
+	}
 	if n < 2 {
 		c.bad("(*Error).getIndicator|indicator", fn.Pos(), "the indicator is not built from a run of spaces and a run of ~")
 	}
